@@ -56,6 +56,13 @@ func noInitPkg(path string) bool { return noInitPkgs[path] }
 
 func reg(name string, f intrinsic) { intrinsics[name] = f }
 
+// modelRedirects: library functions replaced by Go models living in the rt package (/verif/rt/models.go).
+var modelRedirects = map[string]string{
+	"strconv.ParseUint": "ModelParseUint",
+	"strconv.ParseInt":  "ModelParseInt",
+	"strconv.Atoi":      "ModelAtoi",
+}
+
 type builtinObj struct {
 	kind string
 	data interface{}
@@ -209,6 +216,10 @@ func init() {
 			r = in.tb.And(r, in.tb.Eq(a[i].(*T), b[i].(*T)))
 		}
 		return r
+	})
+	reg(rtPkg+".Unsupported", func(in *Interp, fr *frame, fn *ssa.Function, args []Value) Value {
+		in.unsupported("model: %s", in.argStr(args[0], "reason"))
+		return nil
 	})
 	reg(rtPkg+".ExpectPanic", func(in *Interp, fr *frame, fn *ssa.Function, args []Value) Value {
 		in.expectPanic = true
